@@ -26,6 +26,7 @@ import (
 	"github.com/sourcenetwork/defradb/internal/core"
 	"github.com/sourcenetwork/defradb/internal/datastore"
 	"github.com/sourcenetwork/defradb/internal/encryption"
+	"github.com/sourcenetwork/defradb/internal/keys"
 )
 
 func putBlock(
@@ -166,6 +167,40 @@ func determineBlockEncryption(
 				FieldName: prevEncBlock.FieldName,
 				Key:       prevEncBlock.Key,
 			}, *prevBlock.Encryption, nil
+		}
+	}
+
+	// a field that is written for the first time has no previous block of its own: if the document
+	// was encrypted as a whole, the field takes the encryption of the document's composite heads
+	if fieldName.HasValue() && len(heads) == 0 {
+		compositeKey := keys.HeadstoreDocKey{DocID: docID, FieldID: core.COMPOSITE_NAMESPACE}
+		compositeHeads, _, err := NewHeadSet(txn.Headstore(), compositeKey).List(ctx)
+		if err != nil {
+			return nil, cidlink.Link{}, NewErrGettingHeads(err)
+		}
+		for _, headCid := range compositeHeads {
+			prevBlockBytes, err := txn.Blockstore().AsIPLDStorage().Get(ctx, headCid.KeyString())
+			if err != nil {
+				return nil, cidlink.Link{}, NewErrCouldNotFindBlock(headCid, err)
+			}
+			prevBlock, err := GetFromBytes(prevBlockBytes)
+			if err != nil {
+				return nil, cidlink.Link{}, err
+			}
+			if prevBlock.Encryption == nil {
+				continue
+			}
+			prevBlockEncBytes, err := txn.Encstore().AsIPLDStorage().Get(ctx, prevBlock.Encryption.Cid.KeyString())
+			if err != nil {
+				return nil, cidlink.Link{}, NewErrCouldNotFindBlock(headCid, err)
+			}
+			prevEncBlock, err := GetEncryptionBlockFromBytes(prevBlockEncBytes)
+			if err != nil {
+				return nil, cidlink.Link{}, err
+			}
+			if prevEncBlock.FieldName == nil {
+				return &Encryption{DocID: prevEncBlock.DocID, Key: prevEncBlock.Key}, *prevBlock.Encryption, nil
+			}
 		}
 	}
 
